@@ -72,6 +72,9 @@ func Run(r *report.Run) int {
 			r.Count("reachable_handles_still_carrying_staged_state(observed, not judged)", int64(len(sw.StagedHandles)))
 		}
 		for _, st := range c.Steps2 {
+			if st.Slow {
+				r.Inconclusive("step-missed-its-deadline-on-a-slow-machine")
+			}
 			if st.Kind == "touch" && st.Err != "" {
 				r.Violation(fmt.Sprintf("C09:%s:%s:later-writer-of-same-items-blocked", s.Shape, site), map[string]any{"step": st, "case": c})
 			}
